@@ -399,6 +399,24 @@ class Hooks:
     def end(self, live, ops, out, stats): pass
 
 
+def observe(out, hist, what, fn, *args):
+    """run an observation (a hook of a property, a description of the model, an oracle's own replay).
+    An exception that comes out of the implementation while the harness merely LOOKS at the model is
+    itself an observation - the implementation left the model in a state that cannot be looked at -
+    and is reported as a failure with the history; anything else is a fault of the harness.
+    Returns (ok, result)."""
+    try:
+        return True, fn(*args)
+    except core.Infra:
+        raise
+    except Exception as e:
+        if not core.raised_by_impl(e):
+            raise
+        out.fail("the model cannot be observed %s: modelx raised %s" % (what, core.impl_error_text(e)),
+                 hist() if callable(hist) else hist)
+        return False, None
+
+
 def run_one(ops, out, stats, hooks, cfg, rng=None, n_ops=0, seed_ops=None):
     close_all()
     live = W.Live("M")
@@ -410,27 +428,43 @@ def run_one(ops, out, stats, hooks, cfg, rng=None, n_ops=0, seed_ops=None):
     try:
         hooks.start(live, stats)
         k = 0
+        broken = False
         while True:
             if k >= len(ops):
                 if rng is None or k >= n_ops:
                     break
-                ops.append(gen_next(rng, live, cfg, ops, focus=focus))
+                ok, nxt = observe(out, lambda: hist_json(ops), "when choosing the next operation", gen_next,
+                                  rng, live, cfg, ops, focus)
+                if not ok:
+                    broken = True
+                    break
+                ops.append(nxt)
             op = ops[k]
-            hooks.before(live, ops, k, op, stats)
+            ok, _ = observe(out, lambda: hist_json(ops, k - 1), "before %s" % op[0], hooks.before, live, ops, k, op, stats)
+            if not ok:
+                broken = True
+                break
             if op[0] == "evalall":
-                eval_everything(live)
+                ok, _ = observe(out, lambda: hist_json(ops, k), "by evaluating every cells", eval_everything, live)
+                if not ok:
+                    broken = True
+                    break
                 r = "ok"
             else:
                 r = live.apply(op)
             stats["op:" + op[0]] += 1
             if r.startswith("err") and op[0] != "eval":
                 stats["rejected:" + op[0]] += 1
-            hooks.after(live, ops, k, op, r, out, stats)
+            ok, _ = observe(out, lambda: hist_json(ops, k), "after %s (%s)" % (op[0], r.split(" ")[0]),
+                            hooks.after, live, ops, k, op, r, out, stats)
+            if not ok:
+                broken = True
+                break
             k += 1
             if len(out.failures) >= 3:
                 break
-        if len(out.failures) < 3:
-            hooks.end(live, ops, out, stats)
+        if len(out.failures) < 3 and not broken:
+            observe(out, lambda: hist_json(ops), "at the end of the history", hooks.end, live, ops, out, stats)
     finally:
         live.close()
         close_all()
@@ -627,10 +661,12 @@ def enumerate_edits(ctx, out, prop, hooks_factory, cfg, stats, quick_per_motif=1
                     eval_everything(live)
                 else:
                     live.apply(op)
-            edits = single_edits(live)
+            ok, edits = observe(out, hist_json(prefix), "after a motif program", single_edits, live)
         finally:
             live.close()
             close_all()
+        if not ok:
+            continue
         rng = ctx.rng("enum", prop, mi)
         chosen = edits if ctx.tier == "thorough" else rng.sample(edits, min(len(edits), quick_per_motif))
         chosen = chosen + [e for e in edits if e[0] in cfg.get("enum_always", ()) and e not in chosen]
